@@ -18,7 +18,13 @@ def wrap(link, checksum_only):
     else:
         ens.append(('P:C13', INNER_TIME))
         ens.append(('P:C13', CK_INNER))
-    return {'requires': PRE, 'assigns': ASG + (['g_hash_calls'] if (link and checksum_only) else []), 'ensures': ens}
+    if link and checksum_only:
+        # the checksum of a symbolic link is the digest of its TARGET text (what readlink returned for this path), all zero for anything else
+        ens.append(('P:C13', 'g_rl_path == path->ptr'))
+        ens.append(('P:C13', '(g_rl_len != -1) ==> (g_hash_calls == 1 && g_hash_src == g_rl_buf)'))
+        ens.append(('P:C13', '(g_rl_len == -1) ==> (g_hash_calls == 0 && %s.checksum.bytes[g_k] == 0)' % R))
+    return {'requires': PRE + (['g_hash_calls == 0'] if (link and checksum_only) else []),
+            'assigns': ASG + (['g_hash_calls', 'g_rl_buf', 'g_rl_path', 'g_rl_len', 'g_hash_src'] if (link and checksum_only) else []), 'ensures': ens}
 
 
 UNIT = {
